@@ -103,6 +103,7 @@ fn gen_enumerate(base_seed: u64, seed: u64, family_index: u64) -> Case {
     w.gz_vertices = r.chance(0.5);
     w.gz_tables = r.chance(0.5);
     w.gz_misnamed = false;
+    w.text_variant = *r.pick(&[0u8, 0, 1, 2]);
     w.explicit_counts = r.chance(0.4);
     let (kind, arg) = ENUM_KINDS[(pos % ENUM_KINDS.len() as u64) as usize];
     let idx = pos / ENUM_KINDS.len() as u64;
@@ -151,6 +152,7 @@ impl Check for C15 {
         w.gz_vertices = r.chance(0.5);
         w.gz_tables = r.chance(0.5);
         w.gz_misnamed = r.chance(0.15);
+        w.text_variant = *r.pick(&[0u8, 0, 0, 1, 2]);
         w.explicit_counts = r.chance(0.4);
         let mut simcfg = sim::SimCfg::default();
         simcfg.sched = sim::SchedMode::Cooperative;
@@ -250,7 +252,7 @@ impl Check for C15 {
             nontrivial: w.ne() > 0,
             signature: fnv64(&format!("{}|{:?}", serde_json::to_string(&w.edges).unwrap(), out.recorded.faults)),
             reach,
-            sample: json!({"seed": case.seed, "family": case.family, "vertices": w.nv(), "edges": w.ne(), "gz": [w.gz_edges, w.gz_vertices, w.gz_tables], "misnamed": w.gz_misnamed,
+            sample: json!({"seed": case.seed, "family": case.family, "vertices": w.nv(), "edges": w.ne(), "gz": [w.gz_edges, w.gz_vertices, w.gz_tables], "misnamed": w.gz_misnamed, "text_variant": w.text_variant,
                 "vertex_cols": w.vertex_cols, "explicit_counts": w.explicit_counts, "faults": out.recorded.faults.iter().take(6).collect::<Vec<_>>(), "sim_reads": out.stats.sim_reads}),
             stats: Some(out.stats.clone()),
             recorded: Some(out.recorded.clone()),
@@ -258,7 +260,7 @@ impl Check for C15 {
         }
     }
     fn rule(&self) -> String {
-        "each evaluation = one generated network (1-120 vertices, parallel edges, self loops, isolated vertices, hubs of degree >4, vertex file with shuffled / extra columns, explicit or scanned counts, every file plain or gzip, sometimes a gzip file without the .gz suffix) written to the simulated disk and loaded through DefaultGraphBuilder::build and SpeedTraversalEngine::new while the simulator injects faults at read() calls: family legal = short reads down to 1 byte + EINTR at a per-run rate up to 0.9 (graph must be exact), family hard = one EIO (one-shot or sticky) or one truncated gzip stream (load must fail or be exact; never hang, panic or differ silently), family nofault = none; family enumerate = worlds of 1-7 vertices shared by groups of 160 consecutive runs of the family, in which every read index 0..31 is faulted with each of five fault kinds (1-byte short read, 3-byte short read, EINTR, one-shot EIO, sticky EIO): a complete enumeration of single-fault positions for every world whose load needs at most 32 reads and whose group is completed within the run's budget (reach probes enumerated_positions_fired / enumerated_positions_beyond_last_read count both sides). In the other families the position of the faulted read is drawn per run. non-trivial = at least one edge; distinct = distinct (edge list, fault list)".into()
+        "each evaluation = one generated network (1-120 vertices, parallel edges, self loops, isolated vertices, hubs of degree >4, vertex file with shuffled / extra columns, explicit or scanned counts, every file plain or gzip, sometimes a gzip file without the .gz suffix; LF, CRLF or no final newline) written to the simulated disk and loaded through DefaultGraphBuilder::build and SpeedTraversalEngine::new while the simulator injects faults at read() calls: family legal = short reads down to 1 byte + EINTR at a per-run rate up to 0.9 (graph must be exact), family hard = one EIO (one-shot or sticky) or one truncated gzip stream (load must fail or be exact; never hang, panic or differ silently), family nofault = none; family enumerate = worlds of 1-7 vertices shared by groups of 160 consecutive runs of the family, in which every read index 0..31 is faulted with each of five fault kinds (1-byte short read, 3-byte short read, EINTR, one-shot EIO, sticky EIO): a complete enumeration of single-fault positions for every world whose load needs at most 32 reads and whose group is completed within the run's budget (reach probes enumerated_positions_fired / enumerated_positions_beyond_last_read count both sides). In the other families the position of the faulted read is drawn per run. non-trivial = at least one edge; distinct = distinct (edge list, fault list)".into()
     }
     fn assumptions(&self) -> Vec<String> {
         vec![
